@@ -120,6 +120,9 @@ static inline size_t xc_strlen(const char *s)
 /* std::string as seen by slices that only read it: pointer + length (owning semantics not modelled) */
 typedef struct xc_str { const char *data; size_t len; } xc_str;
 
+/* an object the extracted code only passes around */
+typedef struct xc_opaque { char xc_unused; } xc_opaque;
+
 #define XC_DEF_MINMAX(T, S)                                              \
   static inline T xc_min_##S(T a, T b) { return b < a ? b : a; }         \
   static inline T xc_max_##S(T a, T b) { return a < b ? b : a; }
